@@ -76,3 +76,15 @@ Qed.
 (* the first record of an individual gets 0 *)
 Lemma first_record_zero_lemma v : Qeq (hours_between v v) 0.
 Proof. destruct v as [h|d h|]; cbn [hours_between]; [ring | rewrite Z.sub_diag; ring | reflexivity]. Qed.
+
+(* ---- binary64 model: when the truncating split loses nothing, the integer nanosecond difference the code holds
+   before its two final float divisions IS the calendar difference (in units of 1/3600e9 h) ---------------------- *)
+Lemma stamp_difference_exact_lemma (dn1 dn2 : Z) (tv1 tv2 : Q) :
+  split_exact tv1 = true -> split_exact tv2 = true ->
+  Qeq (inject_Z ((dn2 * 86400000000000 + ns_of_hours tv2) - (dn1 * 86400000000000 + ns_of_hours tv1)))
+      (3600000000000 * (inject_Z (dn2 - dn1) * 24 + (tv2 - tv1))).
+Proof.
+  unfold split_exact. intros H1 H2. apply Qeq_bool_iff in H1. apply Qeq_bool_iff in H2.
+  unfold Z.sub. rewrite !inject_Z_plus, !inject_Z_opp, !inject_Z_plus, !inject_Z_mult, H1, H2.
+  change (inject_Z 86400000000000) with (86400000000000 # 1). ring.
+Qed.
